@@ -97,6 +97,15 @@ def newParentMap (diffs : Diffs) (c : Nat) (cur : LineMap) (st : AState) (e : Ed
   let np := (copyLoop (lookupDiff diffs c e.target) cur [] []).2
   if pm.isEmpty then np else mergeLte (pm.length + np.length) pm np
 
+/-- `let is_new_root = parent_source.line_map.is_empty();` taken *before* the parent's line map is
+replaced: the parent has no lines yet (no entry in `commit_source_map`, or a freshly loaded one) -/
+def isNewRoot (st : AState) (e : Edge) : Bool := ((getSrc st.srcs e.target).getD []).isEmpty
+
+/-- `num_unresolved_roots` after a missing edge left lines at its target: an omitted parent is counted
+once, when it receives its first lines (`if is_new_root { state.num_unresolved_roots += 1 }`) -/
+def countRoot (st : AState) (e : Edge) : Nat :=
+  if isNewRoot st e then st.unresolved + 1 else st.unresolved
+
 /-- the body of `for parent_edge in edges` in `process_commit`; `cur` = `current_source.line_map`;
 returns the new `current_source.line_map` and the new state -/
 def processEdge (diffs : Diffs) (c : Nat) (cur : LineMap) (st : AState) (e : Edge) : LineMap × AState :=
@@ -105,7 +114,7 @@ def processEdge (diffs : Diffs) (c : Nat) (cur : LineMap) (st : AState) (e : Edg
     if pm'.isEmpty then { st with srcs := removeSrc st.srcs e.target }
     else if e.isMissing then
       { orig := assign st.orig false e.target pm', srcs := setSrc st.srcs e.target pm',
-        unresolved := st.unresolved + 1 }
+        unresolved := countRoot st e }
     else { st with srcs := setSrc st.srcs e.target pm' })
 
 def processEdges (diffs : Diffs) (c : Nat) : List Edge → LineMap → AState → LineMap × AState
